@@ -105,7 +105,7 @@ PickB ==
         /\ D' = IF Diffable(A, b, T) THEN Diff(A, b, T).v ELSE <<>>
         /\ phase' = IF Diffable(A, b, T) THEN "pair" ELSE "undiffable"
     /\ UNCHANGED A
-CorruptOK == IF Tier = 0 THEN A = B ELSE TRUE
+CorruptOK == IF Tier = 0 THEN A = B ELSE (A = B \/ SizeKids(B.kids) <= 1 \/ SizeKids(A.kids) <= 1)
 Corrupt ==
     /\ phase = "pair" /\ CorruptOK
     /\ \E d \in MutRoot(D) : D' = d
